@@ -226,6 +226,14 @@ class FakeSnowflakeCursor:
 
         no_database, no_schema = checks.is_unqualified_table_expression(transformed)
 
+        table_exists_sql = None
+        if (commented := transformed.args.get("table_comment")) and not isinstance(transformed, exp.Create):
+            # COMMENT ON TABLE / ALTER TABLE SET COMMENT have been replaced by a no-op carrying the comment,
+            # so check the table they refer to here
+            commented_table = cast(exp.Table, commented[0])
+            no_database, no_schema = not commented_table.catalog, not commented_table.db
+            table_exists_sql = f"DESCRIBE {commented_table.sql(dialect='duckdb')}"
+
         if no_database and not self._conn.database_set:
             raise snowflake.connector.errors.ProgrammingError(
                 msg=f"Cannot perform {cmd}. This session does not have a current database. Call 'USE DATABASE', or use a qualified name.",  # noqa: E501
@@ -247,6 +255,8 @@ class FakeSnowflakeCursor:
         result_sql = None
 
         try:
+            if table_exists_sql:
+                self._duck_conn.execute(table_exists_sql)
             self._log_sql(sql, params)
             self._duck_conn.execute(sql, params)
         except duckdb.BinderException as e:
